@@ -4,6 +4,7 @@
 #include "ccl/rslang/StructuredData.h"
 
 #include <map>
+#include <optional>
 #include <set>
 #include <vector>
 #include <unordered_map>
@@ -99,6 +100,7 @@ private:
     std::vector<SDIterator> itemIterators{};
     bool isCompleted{ true };
     uint32_t counter{ 0 };
+    mutable std::optional<StructuredData> current{};
 
   public:
     explicit Iterator(const SDPowerSet& boolean, bool isCompleted = false) noexcept;
@@ -152,6 +154,7 @@ private:
     std::vector<SDIterator> componentIters{};
     bool isCompleted{ true };
     uint32_t counter{ 0 };
+    mutable std::optional<StructuredData> current{};
 
   public:
     explicit Iterator(const SDDecartian& base, bool isCompleted = false);
